@@ -356,8 +356,17 @@ def extract_object_branch(obj_if_full):
     expect(rv == {0: "-np.sin(angle_matrix[:, 0])", 1: "np.cos(angle_matrix[:, 0])", 2: "np.tan(angle_matrix[:, 1])"},
            f"object branch: ray direction formula changed: {rv}")
     flags["rayFormula"] = True
-    rb = find_all(obj_if, lambda n: isinstance(n, ast.Assign) and is_name(n.targets[0], "ray_vectors")
-                  and ast.unparse(n.value) == "orientation.getRotation().apply(ray_vectors)")
+    rb = find_all(obj_if, lambda n: isinstance(n, ast.If) and is_orientation_guard(n.test) and not n.orelse
+                  and len(n.body) == 1 and isinstance(n.body[0], ast.Assign) and is_name(n.body[0].targets[0], "ray_vectors")
+                  and ast.unparse(n.body[0].value) == "orientation.getRotation().apply(ray_vectors)")
+    anyrot = find_all(obj_if, lambda n: isinstance(n, ast.Assign) and is_name(n.targets[0], "ray_vectors")
+                      and "getRotation" in ast.unparse(n.value))
+    expect(len(anyrot) <= 1 and (len(rb) == 1 or len(anyrot) <= 1), "object branch: ray rotation")
+    if len(anyrot) == 1 and len(rb) == 0:
+        # the rotation is there but not under the plain `if orientation is not None:` guard
+        guards = find_all(obj_if, lambda n: isinstance(n, ast.If) and anyrot[0] in n.body)
+        expect(len(guards) == 1 and not is_orientation_guard(guards[0].test), "object branch: ray rotation guard")
+        raise TemplateMismatch("object branch: ray rotation is guarded by an unexpected condition: " + ast.unparse(guards[0].test))
     flags["rayRotatedBack"] = len(rb) == 1
     # hits farther than visibleDistance are ignored
     hd = find_all(obj_if, lambda n: isinstance(n, ast.If) and isinstance(n.test, ast.Compare) and len(n.test.ops) == 1
@@ -491,19 +500,22 @@ def extract_wrappers():
     expect(len(a1) == 1, "VisibilityRequirement.__init__: potential_occluders")
     ok1 = materialised_filter(a1[0].value, "objects", {"obj is not self.source", "obj is not self.target"}, {})
     fb = get_def(req, "VisibilityRequirement.falsifiedByInner", REQ)
-    body = [ast.unparse(s) for s in body_nodoc(fb)]
-    ok2 = body == ["source = sample[self.source]", "target = sample[self.target]",
-                   "potential_occluders = tuple((sample[obj] for obj in self.potential_occluders))",
-                   "occluders = tuple((obj for obj in potential_occluders if obj.occluding))",
-                   "return not source.canSee(target, occludingObjects=occluders)"]
+    env = local_assigns(fb)
+    rets = [n for n in body_nodoc(fb) if isinstance(n, ast.Return)]
+    expect(len(rets) == 1 and set(env) == {"source", "target", "potential_occluders", "occluders"},
+           "VisibilityRequirement.falsifiedByInner changed")
+    expect(ast.unparse(env["source"]) == "sample[self.source]" and ast.unparse(env["target"]) == "sample[self.target]",
+           "VisibilityRequirement.falsifiedByInner: source/target")
+    expect(ast.unparse(rets[0].value) == "not source.canSee(target, occludingObjects=occluders)",
+           "VisibilityRequirement.falsifiedByInner: return")
+    po = env["potential_occluders"]
+    ok_po = (isinstance(po, ast.Call) and dotted(po.func) in ("tuple", "list") and len(po.args) == 1
+             and ast.unparse(po.args[0]) in ("(sample[obj] for obj in self.potential_occluders)",
+                                             "[sample[obj] for obj in self.potential_occluders]")) \
+        or ast.unparse(po) == "[sample[obj] for obj in self.potential_occluders]"
+    ok2 = ok_po and materialised_filter(env["occluders"], "potential_occluders", {"obj.occluding"}, {})
     nv = get_def(req, "NonVisibilityRequirement.falsifiedByInner", REQ)
     ok3 = [ast.unparse(s) for s in body_nodoc(nv)] == ["return not super().falsifiedByInner(sample)"]
-    if not ok2:
-        # tolerate list(...) / list comprehensions, refuse lazy iterators
-        lazy = [n for n in body_nodoc(fb) if isinstance(n, ast.Assign) and isinstance(n.value, (ast.GeneratorExp,))
-                or (isinstance(n, ast.Assign) and isinstance(n.value, ast.Call) and dotted(n.value.func) in ("filter", "map"))]
-        if not lazy:
-            raise TemplateMismatch("VisibilityRequirement.falsifiedByInner changed")
     w["reqOccludersFiltered"] = bool(ok1 and ok2 and ok3)
     return w
 
@@ -558,6 +570,14 @@ OBJ_FIELDS = ["centreShortcut", "distRejectBeyond", "translateFirst", "rayFormul
               "occBlockIfCloser", "closestHit", "survivorVisible"]
 WRAP_FIELDS = ["objCamOffsetLocal", "objRegionSameCam", "orientedPassOrientation", "orientedCamIsPosition", "pointFullSphere",
                "passVisibleDistance", "opOccludersFiltered", "reqOccludersFiltered"]
+
+
+REFERENCE = {
+    "cfg": dict(translateFirst=True, rayRotatedBack=True, distRejectBeyond=True, azNum=1, azDen=0, azQuarter=-1, altComp=2,
+                azAngleIdx=0, altAngleIdx=1, occBlockIfCloser=True, occFilterWithin=True),
+    "obj": {k: True for k in OBJ_FIELDS},
+    "wrap": {k: True for k in WRAP_FIELDS},
+}
 
 
 def to_lean(d):
